@@ -69,12 +69,16 @@ TUPLE_ITER = [
     (r"::next$", r"CharIndices<", (BYTE, None)),
     (r"::next$", r"Enumerate<std::str::Chars<|Enumerate<core::str::Chars<|Enumerate<std::iter::Rev<std::str::Chars", (CHAR, None)),
     (r"::next_back$", r"CharIndices<", (BYTE, None)),
+    (r"::(nth|last)$", r"^&mut (std|core)::str::CharIndices<|^(std|core)::str::CharIndices<", (BYTE, None)),
 ]
 
 
 class Units:
-    def __init__(self, body):
+    def __init__(self, body, prog=None, captures=None, param=None, depth=0):
         self.b = body
+        self.prog = prog
+        self.captures = captures   # units of the captured variables (closure bodies analysed for their caller)
+        self.depth = depth
         self.unit = {}      # local -> unit
         self.tup = {}       # local -> tuple of units (for iterator items)
         self.conflict = set()
@@ -91,6 +95,11 @@ class Units:
                     l = idx + 1
                     if l <= body.argc and re.match(r"^(usize|isize|u\d+|i\d+)$", str(body.local_ty(l))):
                         self.unit[l] = u
+        if param is not None and body.argc >= 2:
+            if isinstance(param, tuple):
+                self.tup[2] = param
+            else:
+                self.unit[2] = param
         self._run()
         self._run_space()
 
@@ -107,6 +116,9 @@ class Units:
                     u = fu
         if u:
             return u
+        if self.captures is not None and l == 1 and proj and isinstance(proj[0], dict) and proj[0].get("a") == "{closure}" and all(e == "*" for e in proj[1:]):
+            i = proj[0]["f"]
+            return self.captures[i] if i < len(self.captures) else None
         # tuple item of an iterator carrier: .0 / .1 after optional downcast
         if l in self.tup:
             idxs = [e["f"] for e in proj if isinstance(e, dict) and "f" in e and e.get("a") in ("(tuple)", None)]
@@ -133,6 +145,26 @@ class Units:
         if p is None:
             return None
         return self.u_place(p)
+
+    def _closure_result(self, t):
+        """unit of what `opt.map(closure)` carries: the closure body analysed with the units of what it captures and
+        of the payload it is given"""
+        c = op_place(t["args"][1])
+        if c is None or c["p"]:
+            return None
+        sd = self.b.single_def(c["l"])
+        if not sd or sd[2] != "assign" or sd[3].get("r") != "agg" or sd[3].get("ak") != "closure":
+            return None
+        cb = self.prog.bodies.get(sd[3].get("closure"))
+        if cb is None:
+            return None
+        caps = [self.u_op(o) for o in sd[3].get("ops", [])]
+        q = op_place(t["args"][0])
+        param = None
+        if q is not None:
+            param = self.tup.get(q["l"]) if q["l"] in self.tup else self.u_place(q)
+        child = Units(cb, self.prog, captures=caps, param=param, depth=self.depth + 1)
+        return child.unit.get(0)
 
     def _set(self, l, u):
         if u is None or l in self.conflict:
@@ -210,6 +242,8 @@ class Units:
                         if q is not None and q["l"] in self.tup and l not in self.tup:
                             self.tup[l] = self.tup[q["l"]]
                             changed = True
+                    if u is None and self.prog is not None and self.depth < 2 and re.search(r"^std::(option::Option|result::Result)::<.*>::map$", decl) and len(t.get("args", [])) == 2:
+                        u = self._closure_result(t)
                     for rx, arx, tu in TUPLE_ITER:
                         if re.search(rx, decl) and re.search(arx, at0) and l not in self.tup:
                             self.tup[l] = tu
@@ -487,7 +521,7 @@ def analyse(prog, body_filter):
     for bid, b in sorted(prog.bodies.items()):
         if b.d.get("derived") or not body_filter(b):
             continue
-        u = Units(b)
+        u = Units(b, prog)
         stats["bodies"] += 1
         stats["locals_with_unit"] += len(u.unit)
         stats["conflicts"] += len(u.conflict)
